@@ -111,26 +111,31 @@ def check(ctx):
 
 def observers(ctx):
     repo = ctx.repo
-    fsv = repo.func(RUNNER, "DataHandler.save_time_step")
-    allowed_roots = {"group", "tmp_grp", "running_grp", "self.save_number", "value", "self.tmp_file", "self.output_file"}
+    allowed_roots = {"group", "tmp_grp", "running_grp", "self.save_number", "value", "self.tmp_file", "self.output_file",
+                     "self.time_step_group"}
     bad = []
-    for n in own_nodes(fsv.node):
-        tg = []
-        if isinstance(n, ast.Assign):
-            tg = n.targets
-        elif isinstance(n, ast.AugAssign):
-            tg = [n.target]
-        for t in tg:
-            root = t
-            while isinstance(root, (ast.Subscript, ast.Attribute)) and not norm(root) in allowed_roots:
-                root = root.value
-            if isinstance(t, ast.Name):
-                continue
-            if norm(root) not in allowed_roots:
-                bad.append(f"L{n.lineno}: {norm(t)}")
-    ctx.ob("R11.2", "save_time_step stores only into HDF5 groups and its own counter", not bad, detail=bad, where=fsv.fq,
-           construct="write effects of save_time_step", loc=loc(fsv, fsv.node), message=f"save_time_step mutates {bad}",
-           consequence="saving a frame changes the simulation state")
+    writers = c05.frame_writer_funcs(repo)
+    fsv = writers[0]
+    for fw in writers:
+        for n in own_nodes(fw.node):
+            tg = []
+            if isinstance(n, ast.Assign):
+                tg = n.targets
+            elif isinstance(n, ast.AugAssign):
+                tg = [n.target]
+            elif isinstance(n, ast.Delete):
+                tg = n.targets
+            for t in tg:
+                root = t
+                while isinstance(root, (ast.Subscript, ast.Attribute)) and not norm(root) in allowed_roots:
+                    root = root.value
+                if isinstance(t, ast.Name):
+                    continue
+                if norm(root) not in allowed_roots:
+                    bad.append(f"{fw.qual} L{n.lineno}: {norm(t)}")
+    ctx.ob("R11.2", f"the frame writer ({', '.join(w.qual for w in writers)}) stores only into HDF5 groups and its own counter", not bad,
+           detail=bad, where=fsv.fq, construct="write effects of the frame writer", loc=loc(fsv, fsv.node),
+           message=f"the frame writer mutates {bad}", consequence="saving a frame changes the simulation state")
     fg = repo.func(RUNNER, "_get")
     src = norm(fg.node)
     ok = "item.get()" in src and not any(isinstance(n, (ast.AugAssign,)) or (isinstance(n, ast.Assign) and not all(isinstance(t, ast.Name) for t in n.targets))
